@@ -879,6 +879,40 @@ func (c *VCtx) translateCall(sc *Scope, x *ECall) Val {
 		return T(SInt, fmt.Sprintf("(%s %s %s)", fn, arg(0).S, arg(1).S))
 	case "allocated":
 		return Select(c.allocHeap(st), arg(0))
+	case "cell":
+		// cell(x): the address of the captured / local variable x (its name alone denotes the content)
+		id, ok := x.Args[0].(*EIdent)
+		if !ok {
+			unsup("cell() needs a variable name")
+		}
+		if l, ok := sc.vars[id.Name].(*Loc); ok && l.Base != nil {
+			return l.Base
+		}
+		for f := sc.fr; f != nil; f = f.parent {
+			for _, fv := range f.fn.FreeVars {
+				if fv.Name() == id.Name {
+					if l, ok := f.env[fv].(*Loc); ok && l.Base != nil {
+						return l.Base
+					}
+				}
+			}
+			for _, blk := range f.fn.Blocks {
+				for _, in := range blk.Instrs {
+					if a, ok := in.(*ssa.Alloc); ok && a.Comment == id.Name {
+						if l, ok := f.env[a].(*Loc); ok && l.Base != nil {
+							return l.Base
+						}
+					}
+				}
+			}
+		}
+		unsup("cell(%s): no such variable cell", id.Name)
+	case "fresh":
+		// fresh(e): the current value of e did not exist in the old state (two-state clauses)
+		if sc.old == nil {
+			unsup("fresh() needs a two-state context")
+		}
+		return Not(Select(c.allocHeap(sc.old), arg(0)))
 	case "in":
 		// in(m, k): key k in domain of Go map m; or set membership for Array K Bool
 		m := arg(0)
